@@ -107,6 +107,10 @@ def check_svd(ctx, A0, q0_0, q1_0, tol, args_after, result, in_situ=False, tag='
             ctx.ok(f'{tag}.zero-product', not np.any((u * sv) @ v), 'zero matrix must give a zero product', detail, s)
         return
     k = len(sv)
+    if k == 0 and tol + SLACK >= 1:
+        # tolerance within rounding of 1: discarding everything is inside the slack of the threshold rule
+        ctx.skip(f'{tag}.shapes')
+        return
     shapes_ok = (u.ndim == 2 and v.ndim == 2 and sv.ndim == 1 and q.ndim == 1 and u.shape == (m, k) and v.shape == (k, n)
                  and len(q) == k and 1 <= k <= min(m, n))
     if not ctx.ok(f'{tag}.shapes', shapes_ok, f'shapes u{u.shape} s{sv.shape} v{v.shape} q{q.shape} for A{A0.shape}', detail, s):
